@@ -101,6 +101,25 @@ def copy_nonoverlapping (c : Cfg) (src dst n : Nat) (s : VW) : VW × Outcome Uni
 def copy_in (c : Cfg) (src : List (Option Elem)) (dst n : Nat) (s : VW) : VW × Outcome Unit :=
   (s.1.copyFrom c (src.take n) dst s.2, .ok ())
 
+/-- `iter.next()` on an iterator the frame holds by value (`none` = it panicked) -/
+def it_next (c : Cfg) (it : It) (s : VW) : VW × It × Option (Option Elem) :=
+  let r := It.next c s.2 it
+  ((s.1, r.1), r.2.1, r.2.2)
+
+/-- dropping the iterator while unwinding (a second panic here would abort the process) -/
+def it_drop (c : Cfg) (it : It) (s : VW) : VW := (s.1, it.dropRest c s.2)
+
+/-- what `It.dropRest` does, with the "a destructor panicked" flag kept -/
+def dropRestP (c : Cfg) (w : W) : It → W × Bool
+  | .src s => dropAll c s.items w
+  | .cloned _ => (w, false)
+  | .owned r => dropAll c r w
+
+/-- the iterator reaches the end of its scope: what it still owns is dropped (and a destructor may panic) -/
+def it_drop_end (c : Cfg) (it : It) (s : VW) : VW × Outcome Unit :=
+  let r := dropRestP c s.2 it
+  ((s.1, r.1), if r.2 then .panic else .ok ())
+
 /-- drop glue of an owned local while unwinding (a second panic here would abort the process) -/
 def drop_elem (c : Cfg) (e : Elem) (s : VW) : VW := (s.1, (dropElem c s.2 e).1)
 
